@@ -7,6 +7,7 @@ import (
 	"github.com/pingcap/kvproto/pkg/pdpb"
 	pd "github.com/tikv/pd/client"
 	"github.com/tikv/pd/pkg/tsoutil"
+	"github.com/tikv/pd/pkg/typeutil"
 	"google.golang.org/grpc"
 	"strings"
 	"time"
@@ -172,6 +173,8 @@ func main() {
 		switch {
 		case strings.Contains(ad.Name, "after-set"):
 			l = append(l, scenario(ad.Name+"/clk+50ms", ad, 2, 0, "quick", false, 3, 1, noAtomics, 50*time.Millisecond))
+			// the periodic update has to save a new window (clock at the end of the saved one)
+			l = append(l, scenario(ad.Name+"/clk+3s", ad, 2, 0, "quick", false, 3, 1, noAtomics, 3*time.Second))
 		case lead:
 			// leadership changes: lease/leader atomics are scheduling points too; the
 			// clock answer is a scenario parameter in the quick tier.
@@ -184,10 +187,48 @@ func main() {
 		}
 		l = append(l, scenario(ad.Name+"@3", ad, 3, 2, "thorough", false, 3, 2, 0, 0))
 	}
+	// the stored window is one hour ahead of the clock and the logical part is more than half
+	// used at every update (tso-save-interval 3 ms so that the window is reached within the
+	// scenario), then the leadership moves: the successor must start above everything granted
+	creep := func(name string, pre int, tiers string) *explore.Scenario {
+		return &explore.Scenario{Name: name, MaxPre: pre, Tiers: tiers, Opts: sched.Options{Kinds: noAtomics}, Setup: func() *explore.Instance {
+			w := tsoh.NewWorld(false)
+			w.SaveInterval = 3 * time.Millisecond
+			w.St.PutDirect(tsoh.TSKey, string(typeutil.Uint64ToBytes(uint64(vclock.Epoch.Add(time.Hour).UnixNano()))))
+			n1 := w.AddNode(1, nil)
+			w.AddNode(2, nil)
+			if err := n1.Campaign(); err != nil {
+				panic(err)
+			}
+			return &explore.Instance{
+				Names: []string{"driver", "req2"},
+				Threads: []func(){
+					func() {
+						for i := 0; i < 5; i++ {
+							w.Request(n1, 140000)
+							old := sched.SetMember(1)
+							vclock.Advance(time.Millisecond)
+							n1.AM.VerifAllocatorUpdaterSync()
+							sched.SetMember(old)
+						}
+						w.Request(n1, 1)
+						tsoh.Handover(0).Run(w, n1)
+					},
+					func() { w.Request(n1, 1) },
+				},
+				Check: func(r *sched.Run) (string, *explore.Violation) {
+					defer w.Close()
+					return w.Outcome(), w.CheckC01()
+				},
+			}
+		}}
+	}
+	l = append(l, creep("preloaded+1h/logical-creep+handover", 1, "quick"), creep("preloaded+1h/logical-creep+handover@2", 2, "thorough"))
 	_ = vclock.Epoch
 	explore.Main(&explore.Config{
-		Property:  "C01",
-		Scenarios: l,
+		Property:    "C01",
+		QuickBudget: 480,
+		Scenarios:   l,
 		Extra:     clientHalf,
 		Rule:      "all schedules (preemption bound) x clock answers (deviation bound) of 2 requesters + updater + one admin action per scenario; outcome = multiset of returned timestamps",
 		Assumptions: []string{
